@@ -93,20 +93,43 @@ theorem special_text (texts : List Bytes) (order : List (Bytes × Bytes)) :
 
 /-! ### GetMatch and the loops -/
 
+theorem wrap64_small (i : Int) (h0 : 0 ≤ i) (h1 : i < 4611686018427387904) : wrap64 (i * 2) = 2 * i := by
+  unfold wrap64; omega
+
+theorem wrap64_big (i : Int) (h0 : 4611686018427387904 ≤ i) (h1 : i ≤ maxInt64) : wrap64 (i * 2) < 0 := by
+  unfold wrap64 maxInt64 at *; omega
+
+/-- The three guards of `GetMatch` (with Go's wrap-around `idx * 2`) are the spec's guard, for every
+Go `int` index – huge indices included: from 2^62 on the doubled index wraps to a negative number. -/
+theorem getMatch_guard (indices : List Int) (i : Int) (hi : minInt64 ≤ i ∧ i ≤ maxInt64)
+    (hl : (indices.length : Int) ≤ maxInt64) :
+    (i < 0 ∨ wrap64 (i * 2) < 0 ∨ wrap64 (i * 2) + 1 ≥ (indices.length : Int)) ↔
+      (i < 0 ∨ (2 * i + 1).toNat ≥ indices.length) := by
+  by_cases hn : i < 0
+  · simp [hn]
+  · by_cases hb : i < 4611686018427387904
+    · rw [wrap64_small i (by omega) hb]; omega
+    · have := wrap64_big i (by omega) hi.2
+      unfold maxInt64 at *
+      constructor
+      · intro _; right; omega
+      · intro _; right; left; exact this
+
 theorem getMatch_ok (indices : List Int) (line : Bytes) (i : Int) (v : Bytes)
+    (hi : minInt64 ≤ i ∧ i ≤ maxInt64) (hl : (indices.length : Int) ≤ maxInt64)
     (h : getMatch indices line i = .ok v) : v = capture indices line i := by
   unfold getMatch at h
   unfold capture
-  have e2 : i * 2 = 2 * i := by omega
-  simp only [e2] at h
-  by_cases h1 : 2 * i < 0 ∨ 2 * i + 1 ≥ (indices.length : Int)
-  · rw [if_pos h1] at h
-    have : i < 0 ∨ (2 * i + 1).toNat ≥ indices.length := by omega
-    rw [if_pos this]
+  simp only [] at h
+  by_cases h1 : i < 0 ∨ (2 * i + 1).toNat ≥ indices.length
+  · rw [if_pos ((getMatch_guard indices i hi hl).mpr h1)] at h
+    rw [if_pos h1]
     cases h; rfl
-  · rw [if_neg h1] at h
-    have : ¬ (i < 0 ∨ (2 * i + 1).toNat ≥ indices.length) := by omega
-    rw [if_neg this]
+  · rw [if_neg (fun hh => h1 ((getMatch_guard indices i hi hl).mp hh))] at h
+    rw [if_neg h1]
+    have hw : wrap64 (i * 2) = 2 * i := by
+      apply wrap64_small <;> (unfold maxInt64 at *; omega)
+    rw [hw] at h
     by_cases h2 : indices.getD (2 * i).toNat 0 < 0 ∨ indices.getD (2 * i + 1).toNat 0 < 0
     · simp only [if_pos h2] at h ⊢
       cases h; rfl
@@ -115,10 +138,18 @@ theorem getMatch_ok (indices : List Int) (line : Bytes) (i : Int) (v : Bytes)
       · cases h
       · cases h; rfl
 
+theorem mapGet_range (order : List (Bytes × Int)) (hr : ∀ p ∈ order, minInt64 ≤ p.2 ∧ p.2 ≤ maxInt64)
+    (n : Bytes) : minInt64 ≤ mapGet 0 order n ∧ mapGet 0 order n ≤ maxInt64 := by
+  unfold mapGet
+  cases hf : order.find? (fun p => p.1 == n) with
+  | none => simp [minInt64, maxInt64]
+  | some p => exact hr p (List.mem_of_find?_eq_some hf)
+
 def namedMembers (order : List (Bytes × Int)) (indices : List Int) (line : Bytes) : List (Bytes × Bytes) :=
   (sortNames (order.map (·.1))).map fun n => (n, capture indices line (mapGet 0 order n))
 
-theorem named_loop (order : List (Bytes × Int)) (indices : List Int) (line : Bytes) :
+theorem named_loop (order : List (Bytes × Int)) (indices : List Int) (line : Bytes)
+    (ht : GoTyped order indices) :
     ∀ (names : List Bytes) (j j' : JB),
       names.foldlM (namedStep order indices line) j = .ok j' →
       j' = writeAll j (names.map fun n => (n, capture indices line (mapGet 0 order n))) := by
@@ -131,7 +162,7 @@ theorem named_loop (order : List (Bytes × Int)) (indices : List Int) (line : By
     cases hg : getMatch indices line (mapGet 0 order n) with
     | error e => simp [namedStep, hg, bind, Except.bind] at h
     | ok v =>
-      have hv := getMatch_ok _ _ _ _ hg
+      have hv := getMatch_ok _ _ _ _ (mapGet_range order ht.idx n) ht.len hg
       simp only [namedStep, hg, bind, Except.bind, pure, Except.pure] at h
       have := ih _ _ h
       rw [this, hv]
@@ -142,21 +173,28 @@ def numberedOf (indices : List Int) (line : Bytes) (is : List Nat) : List (Bytes
     let v := capture indices line (i : Nat)
     if v = [] then none else some (natAscii i, v)
 
-theorem numbered_loop (indices : List Int) (line : Bytes) :
-    ∀ (is : List Nat) (j j' : JB),
+theorem numbered_loop (indices : List Int) (line : Bytes) (hl : (indices.length : Int) ≤ maxInt64) :
+    ∀ (is : List Nat) (j j' : JB), (∀ i ∈ is, i < indices.length) →
       is.foldlM (numberedStep indices line) j = .ok j' →
       j' = writeAll j (numberedOf indices line is) := by
   intro is
   induction is with
-  | nil => intro j j' h; simp [pure, Except.pure] at h; simp [writeAllW, numberedOf, h]
+  | nil => intro j j' _ h; simp [pure, Except.pure] at h; simp [writeAllW, numberedOf, h]
   | cons i is ih =>
-    intro j j' h
+    intro j j' hr h
     rw [List.foldlM_cons] at h
+    have hi : i < indices.length := hr i (by simp)
+    have ih := fun a b => ih a b (fun x hx => hr x (by simp [hx]))
     cases hg : getMatch indices line (i : Nat) with
-    | error e => simp [numberedStep, hg, bind, Except.bind] at h
+    | error e =>
+      have e1 : numberedStep indices line j i = .error e := by unfold numberedStep; rw [hg]; rfl
+      rw [e1] at h; simp [bind, Except.bind] at h
     | ok v =>
-      have hv := getMatch_ok _ _ _ _ hg
-      simp only [numberedStep, hg, bind, Except.bind, pure, Except.pure] at h
+      have hv := getMatch_ok _ _ _ _ (by unfold minInt64; omega) hl hg
+      have e1 : numberedStep indices line j i = .ok (if v ≠ [] then j.writeInferred (natAscii i) v else j) := by
+        unfold numberedStep; rw [hg]; rfl
+      rw [e1] at h
+      simp only [bind, Except.bind] at h
       have := ih _ _ h
       rw [this]
       by_cases he : v = []
@@ -169,9 +207,11 @@ theorem numbered_loop (indices : List Int) (line : Bytes) :
 /-- The text `json` returns, when it returns, is the object text of the sorted named captures
 followed by the non-empty numbered captures. -/
 theorem json_ok_text (named numbered : Bool) (order : List (Bytes × Int)) (indices : List Int)
-    (line out : Bytes) (h : json named numbered order indices line = .ok out) :
+    (line out : Bytes) (ht : GoTyped order indices) (h : json named numbered order indices line = .ok out) :
     out = objText inferredR ((if named then namedMembers order indices line else []) ++
                    (if numbered then expectedNumbered indices line else [])) := by
+  have hrange : ∀ i ∈ List.range (indices.length / 2), i < indices.length := by
+    intro i hi; have := List.mem_range.mp hi; omega
   unfold json at h
   simp only [bind, Except.bind, pure, Except.pure] at h
   cases named with
@@ -180,7 +220,7 @@ theorem json_ok_text (named numbered : Bool) (order : List (Bytes × Int)) (indi
     cases h1 : (sortNames (order.map (·.1))).foldlM (namedStep order indices line) JB.opened with
     | error e => simp [h1] at h
     | ok j1 =>
-      have e1 := named_loop order indices line _ _ _ h1
+      have e1 := named_loop order indices line ht _ _ _ h1
       simp only [h1] at h
       cases numbered with
       | true =>
@@ -188,7 +228,7 @@ theorem json_ok_text (named numbered : Bool) (order : List (Bytes × Int)) (indi
         cases h2 : (List.range (indices.length / 2)).foldlM (numberedStep indices line) j1 with
         | error e => simp [h2] at h
         | ok j2 =>
-          have e2 := numbered_loop indices line _ _ _ h2
+          have e2 := numbered_loop indices line ht.len _ _ _ hrange h2
           simp only [h2] at h
           cases h
           rw [e2, e1, writeAll_append, writeAll_opened]
@@ -206,7 +246,7 @@ theorem json_ok_text (named numbered : Bool) (order : List (Bytes × Int)) (indi
       cases h2 : (List.range (indices.length / 2)).foldlM (numberedStep indices line) JB.opened with
       | error e => simp [h2] at h
       | ok j2 =>
-        have e2 := numbered_loop indices line _ _ _ h2
+        have e2 := numbered_loop indices line ht.len _ _ _ hrange h2
         simp only [h2] at h
         cases h
         rw [e2, writeAll_opened]
@@ -221,22 +261,25 @@ theorem json_ok_text (named numbered : Bool) (order : List (Bytes × Int)) (indi
 theorem getMatch_total (indices : List Int) (line : Bytes) (hf : FitsLine indices line) (i : Int) :
     ∃ v, getMatch indices line i = .ok v := by
   unfold getMatch
-  have e2 : i * 2 = 2 * i := by omega
-  simp only [e2]
-  by_cases h1 : 2 * i < 0 ∨ 2 * i + 1 ≥ (indices.length : Int)
+  simp only []
+  generalize hs : wrap64 (i * 2) = si
+  have hev : si % 2 = 0 := by rw [← hs]; unfold wrap64; omega
+  by_cases h1 : i < 0 ∨ si < 0 ∨ si + 1 ≥ (indices.length : Int)
   · rw [if_pos h1]; exact ⟨_, rfl⟩
   · rw [if_neg h1]
-    have hk := hf i.toNat (by omega)
-    have ea : (2 * i).toNat = 2 * i.toNat := by omega
-    have eb : (2 * i + 1).toNat = 2 * i.toNat + 1 := by omega
-    rw [ea, eb]
-    by_cases h2 : indices.getD (2 * i.toNat) 0 < 0 ∨ indices.getD (2 * i.toNat + 1) 0 < 0
+    have hk := hf (si.toNat / 2) (by omega)
+    have ea : si.toNat = 2 * (si.toNat / 2) := by omega
+    have eb : (si + 1).toNat = 2 * (si.toNat / 2) + 1 := by omega
+    rw [eb]
+    generalize si.toNat / 2 = k at hk ea
+    rw [ea]
+    by_cases h2 : indices.getD (2 * k) 0 < 0 ∨ indices.getD (2 * k + 1) 0 < 0
     · simp only [if_pos h2]; exact ⟨_, rfl⟩
     · simp only [if_neg h2]
       rcases hk with hk | hk
       · exact absurd hk h2
-      · have : ¬ (indices.getD (2 * i.toNat + 1) 0 > (line.length : Int) ∨
-            indices.getD (2 * i.toNat) 0 > indices.getD (2 * i.toNat + 1) 0) := by omega
+      · have : ¬ (indices.getD (2 * k + 1) 0 > (line.length : Int) ∨
+            indices.getD (2 * k) 0 > indices.getD (2 * k + 1) 0) := by omega
         rw [if_neg this]; exact ⟨_, rfl⟩
 
 theorem foldlM_total {α : Type} (f : JB → α → Except String JB) (hf : ∀ j a, ∃ j', f j a = .ok j') :
@@ -260,7 +303,7 @@ theorem json_total (named numbered : Bool) (order : List (Bytes × Int)) (indice
     intro j a
     obtain ⟨v, hv⟩ := getMatch_total indices line hf (a : Nat)
     exact ⟨if v ≠ [] then j.writeInferred (natAscii a) v else j,
-      by simp only [numberedStep, hv, bind, Except.bind, pure, Except.pure]⟩
+      by unfold numberedStep; rw [hv]; rfl⟩
   unfold json
   simp only [bind, Except.bind, pure, Except.pure]
   cases named with
